@@ -3,6 +3,7 @@ package main
 import (
 	"fmt"
 	"math/rand"
+	"os"
 	"runtime"
 	"sync"
 	"sync/atomic"
@@ -28,17 +29,22 @@ type concCfg struct {
 
 func concConfigs(rng *rand.Rand) []concCfg {
 	var out []concCfg
-	reps := rep.Pick(1, 6)
+	reps := rep.Pick(1, 4)
 	for i := 0; i < reps; i++ {
 		for _, lazy := range []bool{false, true} {
 			for _, procs := range []int{1, 2, 16} {
 				out = append(out, concCfg{Lazy: lazy, Procs: procs, Goroutines: 16, Questions: 8,
-					Ops: rep.Pick(250, 1200), Pause: procs == 16 || (rep.Thorough() && i%2 == 0), Seed: rng.Int63n(1 << 40)})
+					Ops: rep.Pick(250, 800), Pause: procs == 16 || (rep.Thorough() && i%2 == 0), Seed: rng.Int63n(1 << 40)})
 			}
 		}
 	}
 	return out
 }
+
+// C10_UNSERIALISED_FLUSH=1 lets /flush run concurrently with everything else
+// (useful once concurrent_map.shard.flush takes the write lock; before that the
+// race detector reports the C11 flush defect with cache-plugin frames on both stacks).
+var unserialisedFlush = os.Getenv("C10_UNSERIALISED_FLUSH") == "1"
 
 type verInfo struct {
 	ttls []uint32
@@ -179,9 +185,15 @@ func runConcurrent(cfg concCfg) {
 				x := rng.Intn(100)
 				switch {
 				case x < 3:
-					opMu.Lock()
-					e.flush()
-					opMu.Unlock()
+					if unserialisedFlush {
+						opMu.RLock()
+						e.flush()
+						opMu.RUnlock()
+					} else {
+						opMu.Lock()
+						e.flush()
+						opMu.Unlock()
+					}
 					rep.Count("concurrent_flushes", 1)
 					continue
 				case x < 9:
